@@ -169,6 +169,8 @@ func VerifH_C12_plugin_any_order() {
 	for i := 0; i < K; i++ {
 		verifAct(e, r, given, acts[verifrt.Choice("action", len(acts))])
 	}
+	// the step is left to do whatever the inputs it got allow (closing in mid-flight is scenario B's subject)
+	verifrt.Settle()
 	verifEpilogue(e, r, false)
 }
 
